@@ -34,6 +34,10 @@ CHECKS = {
          "For straight trenches TLC checks on the exact planar construction that no member is discarded by the transcribed pre-filter (depth cut-off measured from the min depth, bounding box extended by length + thickness) -- the pre-fix cut-off is kept as a switch and yields the counterexample; for all families (straight, curved, spherical up to 80 degrees latitude, dateline-crossing, variable depth surfaces) every query is answered twice in one process, with the shortcuts as built and neutralised through the GWB_VERIF hook, and must agree bitwise.",
          "differential replay needs the hook (bounds inflated at parse time); grids of 5-6 thousand points per world; quick runs a third of the straight and half of the curved worlds; " + NOTE,
          "TLA+/TLC Mech|=Prop for the culling arithmetic (Slab.tla) + differential replay with the hook (Culling.tla)"),
+ "C08": ("model_checking",
+         "Motion.tla writes one world against a frame: every coordinate-bearing entry is produced by the single operator XYf(frame, x, y) (plus the plume azimuth), so applying a motion is re-rendering against another frame and no entry can be forgotten; frames use rational rotations (90, 180 degrees, 3-4-5, 5-12-13) with translations up to 1e7 m, and longitude offsets that carry features across the +-180 meridian; TLC checks the exact group structure on the lattice; base and moved worlds are built and compared at p and g.p (metamorphic replay, tolerance 1e-6).",
+         "one rich world, 17 Cartesian frames and 8 longitude offsets, 18 interior probes; the code-side comparison is metamorphic (code vs code); " + NOTE,
+         "TLA+/TLC frame algebra (Motion.tla) + metamorphic replay base vs moved world"),
  "C09": ("model_checking",
          "TLC maps every 2D probe exactly onto the section (rational arithmetic on Pythagorean directions), checks that the probes stay away from straight feature boundaries, and every section x position x depth x property list is replayed: the 2D reply must equal the 3D reply at the mapped point block by block, velocities as the specified projection, and a world without cross section must refuse.",
          "36 sections (origins x 6 directions x Cartesian/spherical), 45 property lists; tolerance 1e-9 because the code's own mapping rounds; " + NOTE,
